@@ -299,10 +299,13 @@ def run_case(case):
                 raise Violation("lookup", f"{tag}: lenient lookup of absent {sid} returned {env.get_agent(sid)!r}")
         else:
             raise InvalidCase(op)
-        compare(tag)
-        if k < 12 or (NOBJ > 16 and k >= len(case["ops"]) - 6):
+        look = ("every", "every", "sparse", "end")[len(case["ops"]) % 4]      # how often the full state is inspected between operations
+        if look == "every" or (look == "sparse" and k % 3 == 2):
+            compare(tag)
+        if (k < 12 or (NOBJ > 16 and k >= len(case["ops"]) - 6)) and look == "every":
             inject_all(tag)
             compare(tag + " (after fault injection)")
+    compare("at the end")
     if NOBJ > 64:
         labels.add("population>64")
     if decoy is not None:
